@@ -359,6 +359,14 @@ class Interp:
         if isinstance(attr, types.FunctionType):
             if attr.__name__ == "__init__" and attr.__code__.co_filename.startswith("<") and dataclasses.is_dataclass(defcls):
                 return BoundMethod(ModelFn(lambda it, args, kw: it.dataclass_init(args[0], defcls, list(args[1:]), kw), "dataclass.__init__"), obj)
+            if attr.__name__ == "__eq__" and attr.__code__.co_filename.startswith("<") and dataclasses.is_dataclass(defcls):
+                def dc_eq(it, args, kw, _cls=defcls):
+                    a, b = args[0], args[1]
+                    if type(b) is not SObj or b.cls is not a.cls:
+                        return NotImplemented
+                    names = [f.name for f in dataclasses.fields(_cls) if f.compare]
+                    return it.compare(ast.Eq, tuple(it.getattr(a, n) for n in names), tuple(it.getattr(b, n) for n in names))
+                return BoundMethod(ModelFn(dc_eq, "dataclass.__eq__"), obj)
             if attr in self.models:
                 return BoundMethod(ModelFn(self.models[attr], attr.__name__), obj)
             return BoundMethod(closure_of(attr, defcls), obj)
